@@ -8,7 +8,8 @@ from rules.agree import r16_2
 from rules.utilfn import r10_7
 from rules.C13 import r13_5
 from rules.agree import r20_5
-RULES = [('R10.1', r10_1), ('R09.1', r09_1), ('R09.2', r09_2), ('R09.3', r09_3), ('R09.4', r09_4), ('R09.5', r09_5), ('R09.6', r09_6), ('R03.5', r03_5), ('R03.2', r03_2), ('R01.6', r01_6), ('R16.2', r16_2), ('R10.7', r10_7), ('R13.5', r13_5), ('R20.5', r20_5)]
+from rules.layout import r04_4
+RULES = [('R10.1', r10_1), ('R09.1', r09_1), ('R09.2', r09_2), ('R09.3', r09_3), ('R09.4', r09_4), ('R09.5', r09_5), ('R09.6', r09_6), ('R03.5', r03_5), ('R03.2', r03_2), ('R01.6', r01_6), ('R16.2', r16_2), ('R10.7', r10_7), ('R13.5', r13_5), ('R20.5', r20_5), ('R04.4', r04_4)]
 EXPLANATION = """R09.1 in both search drivers a match obtained for a state that came from next_state or from a saved OverlappingState reaches a
 publication (mat = Some(m) / state.mat = Some(m)) only through the unanchored edge or through m.start() <= input.start(); start-state
 matches are published at the search start; R09.2 in both NFA next_state loops the failure link is followed only on the unanchored
